@@ -320,7 +320,7 @@ func checkC01(c *runCtx) {
 		"NATs are endpoint-independent (cone); filtering is expressed by the reachability relation")
 	p := newVTPool()
 	defer p.close()
-	dl := c01deadline(c, 150, 1500)
+	dl := c01deadline(c, 240, 1500)
 	host1 := []string{"host"}
 	host2 := []string{"host", "host"}
 	type sp struct {
